@@ -195,6 +195,13 @@ def _problem(case):
         w = rs.randn(k)
         base = w @ basis
         train = np.array([base + 0.3 * np.std(base) * rs.randn(nd_all) for _ in range(r)])
+    elif kind == 'close':
+        # every candidate resembles another training RDM (which are structurally different: supported on different pairs),
+        # so the best single candidate depends on the exact weight each training RDM has in the criterion (1 / its norm
+        # under the criterion's own metric); scores are close
+        masks = [rs.rand(nd_all) < 0.6 for _ in range(r)]
+        train = np.array([(0.05 + rs.rand(nd_all)) * np.where(m, 1.0, 0.08) for m in masks])
+        basis = np.array([train[i % r] / np.sqrt(np.mean(train[i % r] ** 2)) + 0.35 * rs.rand(nd_all) for i in range(k)])
     elif kind == 'posmix':
         w = 0.2 + rs.rand(k)
         base = w @ basis
@@ -773,7 +780,7 @@ def tier_c(run, thorough):
     # ---- selection -----------------------------------------------------------------------------
     bd = Bounded(run, 'C08/select', 'C08/fit_select/oracle/best-single-candidate',
                  'seeded problems: 2..5 candidate RDMs on 5/6/8 conditions, the pattern selections of the weighted domain, '
-                 '1/3/4 training RDMs, 4 methods, sigma_k none / given; fit_select and ModelSelect.fit', function='fit_select')
+                 '1/3/4 training RDMs, 4 methods, sigma_k none / given; plus seeded problems with CLOSE candidates (perturbations of one pattern) and 3/4 heterogeneous training RDMs, sigma_k none / full / diagonal; fit_select and ModelSelect.fit', function='fit_select')
     for seed in range(3 if thorough else 1):
         for method in METHODS:
             for n_all in (5, 6, 8):
@@ -784,6 +791,12 @@ def tier_c(run, thorough):
                                     kind=('random', 'mix')[k % 2], method=method, n_train=(1, 3, 4)[(si + k) % 3], sigma=sigma,
                                     via=('direct', 'model.fit')[(si + k + seed) % 2])
                         bd.check(orc_select, case, _sigma_class(case), function='fit_select')
+    for seed in range(180 if thorough else 66):     # close candidates, several heterogeneous training RDMs, all criteria
+        method = ('cosine_cov', 'corr_cov', 'corr_cov', 'cosine_cov', 'cosine', 'corr')[seed % 6]
+        case = dict(seed=7000 + seed, k=(3, 4, 5)[seed % 3], n_all=(5, 6, 8)[(seed // 3) % 3], pidx=None, desc='index', kind='close',
+                    method=method, n_train=(3, 4)[seed % 2], sigma=('full', 'diag')[(seed // 4) % 2] if method.endswith('_cov') else 'none',
+                    via=('direct', 'model.fit')[seed % 2])
+        bd.check(orc_select, case, _sigma_class(case) + ',close-candidates', function='fit_select')
     bd.done()
     bds.append(bd)
     # ---- interpolation -------------------------------------------------------------------------
